@@ -639,11 +639,16 @@ def _child(root, scn, step, resfile, outf, errf):
         import trashcli.put.clock as pc
         import trashcli.empty.main as em
 
+        tick = step.get('tick') or 0            # a clock that moves: every reading is `tick` seconds after the previous one
+        reads = [0]
+
         class _DT(_dt.datetime):
             @classmethod
             def now(cls, tz=None):
-                shim.trace.append(['now', [], ['ok', list(now)]])
-                return nowv
+                v = nowv + _dt.timedelta(seconds=tick * reads[0])
+                reads[0] += 1
+                shim.trace.append(['now', [], ['ok', [v.year, v.month, v.day, v.hour, v.minute, v.second, v.microsecond]]])
+                return v
 
             @classmethod
             def today(cls):
